@@ -270,9 +270,11 @@ def scanLine (asm : Bool) (litBase : Nat) : Nat → Bool → Str → Str → Boo
      | none => .ok { text := acc, insertIt := ins, inComment := true, literals := lits })
   | fuel + 1, false, rem, acc, ins, lits =>
     let beforeLine := match splitOnce ['/', '/'] rem with | some (b, _) => b | none => rem
+    -- the text after `/*` is the untruncated remainder of the line (the pinned tree searched the
+    -- piece cut at `//`; repaired in /repo by a `fix:` commit)
     let (s2, afterBlock) : Str × Option Str :=
       match splitOnce ['/', '*'] beforeLine with
-      | some (b, a) => (b, some a)
+      | some (b, _) => (b, some (rem.drop (b.length + 2)))
       | none => (beforeLine, none)
     let literalHere : Option Str :=
       if !startsWith s2 "#include".toList && !asm then (splitOnce ['"'] s2).map (·.1) else none
